@@ -3,6 +3,7 @@ from __future__ import annotations
 # Specific customizations (for the stdlib and other libraries of interest
 # to the author) that use the customization interfaces in ._customization.
 
+import builtins
 import functools
 import gc
 import sys
@@ -364,6 +365,25 @@ def glue_builtins() -> None:
         raise RuntimeError(
             f"{aw!r} doesn't refer to anything with a cr_frame attribute"
         )
+
+    anext_builtin = getattr(builtins, "anext", None)
+    if anext_builtin is not None:
+        # Get the type of the awaitable returned by the two-argument form
+        # of the anext() builtin (3.10+), which wraps whatever the async
+        # iterator's __anext__() returned
+        agen = some_asyncgen()
+        anext_awaitable_type = type(anext_builtin(agen, None))
+        try:
+            agen.aclose().send(None)  # type: ignore
+        except (StopIteration, StopAsyncIteration):
+            pass
+
+        @unwrap_stackitem.register(anext_awaitable_type)
+        def unwrap_anext_awaitable(aw: Any) -> Any:
+            # refers to the wrapped awaitable and the default value,
+            # in that order, but doesn't expose either
+            referents = gc.get_referents(aw)
+            return referents[0] if referents else None
 
 
 def format_funcname(func: object) -> str:
